@@ -18,25 +18,37 @@ class RemoveDebug(SuiteTransformer):
 
     def constant_value(self, node):
         if sys.version_info < (3, 4):
-            return node.id == 'True'
+            if isinstance(node, ast.Name) and node.id in ['True', 'False']:
+                return node.id == 'True'
+            return None
         elif is_constant_node(node, ast.NameConstant):
             return node.value
         return None
+
+    def is_debug_name(self, node):
+        return isinstance(node, ast.Name) and node.id == '__debug__'
 
     def can_remove(self, node):
         if not isinstance(node, ast.If):
             return False
 
-        if isinstance(node.test, ast.Name) and node.test.id == '__debug__':
+        if node.orelse:
+            # The else (or elif) branch is what would run when __debug__ is False
+            return False
+
+        if self.is_debug_name(node.test):
             return True
 
-        if isinstance(node.test, ast.Compare) and len(node.test.ops) == 1 and isinstance(node.test.ops[0], ast.Is) and self.constant_value(node.test.comparators[0]) is True:
+        if not isinstance(node.test, ast.Compare) or len(node.test.ops) != 1 or not self.is_debug_name(node.test.left):
+            return False
+
+        if isinstance(node.test.ops[0], ast.Is) and self.constant_value(node.test.comparators[0]) is True:
             return True
 
-        if isinstance(node.test, ast.Compare) and len(node.test.ops) == 1 and isinstance(node.test.ops[0], ast.IsNot) and self.constant_value(node.test.comparators[0]) is False:
+        if isinstance(node.test.ops[0], ast.IsNot) and self.constant_value(node.test.comparators[0]) is False:
             return True
 
-        if isinstance(node.test, ast.Compare) and len(node.test.ops) == 1 and isinstance(node.test.ops[0], ast.Eq) and self.constant_value(node.test.comparators[0]) is True:
+        if isinstance(node.test.ops[0], ast.Eq) and self.constant_value(node.test.comparators[0]) is True:
             return True
 
         return False
